@@ -890,8 +890,9 @@ theorem secLoadData_frame2 (c : Cls) (tr : List Trans) (ls : LoadSt) (b : SecBuf
     cases hb : b.data with
     | none => rw [hb] at hd; cases hd
     | some x => rfl
+  have hneed : ∀ t, secNeedsLoad c false t = false := fun t => by cases c <;> rfl
   unfold secLoadData
-  simp only [hn, Bool.false_and, Bool.false_eq_true, if_false]
+  simp only [hn, hneed, Bool.false_and, Bool.false_eq_true, if_false]
   repeat' split
   all_goals exact ⟨rfl, rfl⟩
 
